@@ -2,6 +2,7 @@
 #include "value.h"
 
 #include <vector>
+#include <algorithm>
 #include <string>
 #include <string_view>
 #include <optional>
@@ -52,29 +53,7 @@ namespace sqf::runtime
             iterator begin() noexcept { return m_children.begin(); }
             iterator end() noexcept { return m_children.end(); }
             iterator find(std::string index) { return m_children.find(index); }
-            void push_back(std::string key, size_t target_id)
-            {
-                auto res = m_children.find(key);
-                if (res == m_children.end())
-                {
-                    m_children_vec.push_back(target_id);
-                }
-                else if (res->second == target_id)
-                {
-                    return;
-                }
-                else
-                {
-                    for (auto& it : m_children_vec)
-                    {
-                        if (it == res->second)
-                        {
-                            it = target_id;
-                        }
-                    }
-                }
-                m_children[key] = target_id;
-            }
+            void push_back(std::string key, size_t target_id);
         };
 
     private:
@@ -101,6 +80,30 @@ namespace sqf::runtime
         bool is_null() const { return m_container_id == invalid_id; }
         size_t container_id() const { return m_container_id; }
     };
+    // The ordered list only holds actual entries. The marker a `delete` leaves (invalid_id) lives in the
+    // name lookup alone: it has to hide what is inherited, but it is nothing count or select could hand out.
+    inline void config::container::push_back(std::string key, size_t target_id)
+    {
+        auto res = m_children.find(key);
+        if (res != m_children.end() && res->second == target_id)
+        {
+            return;
+        }
+        if (res != m_children.end() && res->second != config::invalid_id)
+        {
+            auto existing = std::find(m_children_vec.begin(), m_children_vec.end(), res->second);
+            if (existing != m_children_vec.end())
+            {
+                if (target_id == config::invalid_id) { m_children_vec.erase(existing); }
+                else { *existing = target_id; }
+            }
+        }
+        else if (target_id != config::invalid_id)
+        {
+            m_children_vec.push_back(target_id);
+        }
+        m_children[key] = target_id;
+    }
     class confighost
     {
         friend class confignav;
